@@ -295,7 +295,10 @@ def _level_a(line):
         setattr(hl, k, a)
     with warnings.catch_warnings():
         warnings.simplefilter("ignore")
-        hl.process_month_loads()
+        try:
+            hl.process_month_loads()
+        except Exception as e:  # noqa: BLE001 - no hybrid sequence exists for a legitimate horizon
+            return {"mismatch": [], "verdict": {}, "raised": f"{type(e).__name__}: {e}"}
     return _finish(line, hl, M, totals, fixed)
 
 
@@ -396,6 +399,8 @@ def _level_b(line):
         with warnings.catch_warnings():
             warnings.simplefilter("ignore")
             hl = ghl.HybridLoad(prof, None, None, sp, years=[2020] if line.get("leap") else [2019])
+    except Exception as e:  # noqa: BLE001 - no hybrid sequence exists for a legitimate horizon
+        return {"mismatch": [], "verdict": {}, "raised": f"{type(e).__name__}: {e}"}
     finally:
         ghl.HybridLoad.perform_current_month_simulation = real
     # peak days / peaks / totals the real constructor derived must be the abstract inputs
@@ -444,6 +449,8 @@ def replay(chk: Check, invs, fixed=None):
             chk.nontrivial.add((line["special"]["pkc"], line["special"]["pkh"], line["special"]["dayC"], line["special"]["dayH"],
                                 line["special"]["dc"], line["special"]["dh"], line["special"]["wc"], line["special"]["wh"], line["M"] > 24))
             falses = [n for n in names if r["verdict"].get(n) is False]
+            if r.get("raised"):
+                falses = [f"a hybrid sequence for this horizon (construction raised {r['raised']})"]
             if r["verdict"].get("F14_seen"):
                 chk.violation("F14 on real code", None, known_key="F14")
             info = {"level": level, "M": line["M"], "slot": line["slot"], "special": line["special"], "mismatch": r["mismatch"], "false": falses}
